@@ -14,6 +14,23 @@ CHECKS = {
           'assumption: non-degenerate triangle; KKT/non-negativity are core in a canonical frame, generality in orientation via solver-proved rotation invariance of every dot product.'),
     technique='symbolic execution of LLVM IR + z3 nonlinear real arithmetic; native replay of counterexamples',
     design='3/C05'),
+ 'C12': dict(
+    level='other',
+    text=('Bounded symbolic proof: the real cell constructor, initialize_cell_properties, compute_volume/area/centroid, get_aabb, update_face_normal_and_area and '
+          'check_face_normal_orientation run in irsym on a catalogue of closed meshes (quick: T4,T5; thorough: up to 7 nodes) with every coordinate symbolic. z3 proves exactness '
+          '(divergence theorem about an arbitrary origin = translation invariance), cubic/quadratic scaling, face normal/area laws, centroid law, AABB tightness, invariance under all '
+          'adjacent transpositions of node/face storage, and orientation repair for all 2^F input windings (both sign branches). Bound: mesh connectivity is concrete (catalogue).'),
+    note='Trusted: clang-14 lowering (validated per run vs g++ -O2 bitwise), irsym + polynomial normaliser + z3; assumptions: closed consistently wound input in generic position, exact-real arithmetic; get_cell_longest_axis not encoded.',
+    technique='symbolic execution of LLVM IR on concrete mesh topology with symbolic coordinates + z3 (nlsat) on normalised polynomial obligations',
+    design='3/C12'),
+ 'C04': dict(
+    level='other',
+    text=('Symbolic proof of the closed-form cell-cycle laws: update_target_volume, update_pressure, is_ready_to_divide (through the vtable of all five cell classes), is_below_min_vol '
+          'and initialize_random_properties are executed in irsym with all scalars symbolic (P_max and V_div finite or +inf; sigma zero or not); z3 proves the laws on every feasible path. '
+          'No loops: the only bounds are the case enumeration listed in the evidence.'),
+    note='Trusted: clang lowering (validated per run), irsym, z3, log as uninterpreted function, normal_distribution::operator() stubbed as mean+stddev*Z (Z arbitrary real). The removal loop of the solver is covered by C08.',
+    technique='symbolic execution of LLVM IR + z3 (LRA/NRA with uninterpreted log)',
+    design='3/C04'),
 }
 
 NOT_APPLICABLE = {
